@@ -84,6 +84,8 @@ type Exec struct {
 	divAlias             map[int]*smt.Term
 	rangeIDs             map[*ssa.Range]int
 	views                map[int]*viewInfo
+	curSt                *State
+	hintDiv              map[int]int // division-hint hypothesis -> id of the div term it is about
 	divRest              map[[2]int]*smt.Term
 }
 
@@ -647,6 +649,9 @@ func (x *Exec) havocState(pre *State, modCells map[*cellKey]bool, modHeaps map[s
 	sort.Strings(hk)
 	for _, k := range hk {
 		st.heaps[k] = x.b.Fresh(k+"_"+tag, x.heapSorts[k])
+		if k == "G_alloc" {
+			x.axiom(x.b.Cmp(">=", st.heaps[k], x.getHeap(pre, k)))
+		}
 	}
 	return st
 }
